@@ -1268,11 +1268,13 @@ def generate(rng, tier, i):
             else:
                 op = {"k": "observe", "h": h}
         op["c"] = c
+        if op["k"] in ("call", "hcall", "obtain", "derive") and not op.get("again") and rng.random() < 0.07:
+            op["interrupt_at"] = int(10 ** rng.uniform(0, 2.6)) - 1
         ops.append(op)
     # pre-emption: run a later-style op of another caller inside a call
     if callers > 1:
         for op in ops:
-            if op["k"] in ("call", "hcall", "obtain", "derive") and rng.random() < 0.3:
+            if op["k"] in ("call", "hcall", "obtain", "derive") and "interrupt_at" not in op and rng.random() < 0.3:
                 pts = []
                 for _ in range(rng.randrange(1, 4)):
                     at = int(10 ** rng.uniform(0, 2.3)) - 1
@@ -1719,6 +1721,32 @@ class C09Engine(Engine):
             ctx.caller = f"c{op.get('c', 0)}"
             ctx.step(f"{ctx.caller}:{op['k']}" + ("+P" if op.get("preempt") else "") + ("(nested)" if nested else ""))
             t = flat_index[id(op)]
+            if op.get("interrupt_at") is not None and not nested:
+                # the caller is interrupted (Ctrl-C, cancelled task) in the middle of this call: the
+                # call never completes (it is not part of any lineage), its arguments must be as
+                # before, and everything that runs later must be as if it had never been started
+                ctx.fault_configured("interrupt_in_call")
+                pre = seams.Preemptor(self._prefix, {op["interrupt_at"]: seams.interrupt_now})
+                try:
+                    pre.run(lambda: _exec_op(world, ops, op))
+                    ctx.probe("interruption_point_not_reached")
+                    interrupted = False
+                except seams.SimInterrupt:
+                    interrupted = True
+                if interrupted:
+                    ctx.fault_fired("interrupt_in_call")
+                    ctx.log("interrupted", op["k"], op.get("f", op.get("m")), op["interrupt_at"])
+                    if op.get("h") is not None and op["k"] in ("obtain", "derive"):
+                        world.handles.pop(op["h"], None)
+                    check_args("by the interrupted", op)
+                    return
+                # the point was never reached: the call completed under tracing; run it normally below
+                # is not possible (it has run): record its result through the normal path
+                ctx.count("interrupt_not_reached_calls")
+                if op.get("h") is not None and op["k"] in ("obtain", "derive"):
+                    world.handles.pop(op["h"], None)
+                check_args("by", op)
+                return
             if op.get("preempt") and not nested:
                 points = {}
                 for p in op["preempt"]:
